@@ -79,7 +79,8 @@ def match_known(v, known):
 
 
 def signature(v):
-    msg = re.sub(r"[-+]?\d+\.?\d*(e[-+]?\d+)?", "#", v.get("message", ""))
+    msg = re.sub(r"\S+\.(txt|dat)", "<file>", v.get("message", ""))
+    msg = re.sub(r"[-+]?\d+\.?\d*(e[-+]?\d+)?", "#", msg)
     return f"{v['oracle']}|{v['property']}|{msg[:120]}"
 
 
@@ -375,8 +376,8 @@ class Check:
             seen = {}
             for s, v in violations:
                 seen.setdefault(signature(v), (s, v))
-            for sig, (s, v) in list(seen.items())[:3]:
-                path = self.write_replay(pool, scs[s], v, sig)
+            for k, (sig, (s, v)) in enumerate(list(seen.items())[:3]):
+                path = self.write_replay(pool, scs[s], v, sig, k)
                 replays.append(path)
                 print(f"VIOLATION property={self.prop} replay={path}")
                 print(f"  seed={s} oracle={v['oracle']} client={v.get('client')} op={v.get('op')}: {v['message'][:300]}")
@@ -408,7 +409,7 @@ class Check:
               f"{len(violations)} violations, {sum(n for _, n in known_hits.values())} known-finding hits, {len(harness)} harness errors, {wall:.1f}s")
         return rc
 
-    def write_replay(self, pool, sc, v, sig):
+    def write_replay(self, pool, sc, v, sig, k=0):
         os.makedirs(REPLAY_DIR, exist_ok=True)
         small = sc
         try:
@@ -419,7 +420,7 @@ class Check:
         mine = [x for x in vs if sig_class(signature(x)) == sig_class(sig)]
         doc = {"format": 1, "property": self.prop, "scenario": small, "verdict": (mine[0] if mine else v),
                "original_seed": sc["seed"], "reproduced_in_fresh_fork": bool(mine), "signature": sig}
-        path = os.path.join(REPLAY_DIR, f"{self.prop}-{sc['seed']}.json")
+        path = os.path.join(REPLAY_DIR, f"{self.prop}-{sc['seed']}-{k}.json")
         with open(path, "w") as fp:
             json.dump(doc, fp, indent=1, default=str)
         return path
